@@ -256,6 +256,21 @@ func histCheck(prop, tier, level string) int {
 		}
 		states, outcomes := rep.States, rep.Outcomes
 		runMicros(rep, specs, 20, false)
+		if prop == "C03" {
+			// E5: every spelling of a RDY argument around the integer boundaries x
+			// max-rdy-count x connection state
+			var jobs []caseJob
+			for _, max := range []int64{1, 2, 2500, 1 << 31, 1<<63 - 1} {
+				for _, st := range []string{"fresh", "rdy1", "closing"} {
+					for _, arg := range nsqd.RdyArgs(max) {
+						jobs = append(jobs, caseJob{"rdyrange", mustJSON(nsqd.RdySpec{Arg: arg, MaxRdy: max, State: st, Backlog: 3})})
+					}
+				}
+			}
+			runCases(rep, jobs, 16)
+			rep.Extra["rdy_range_cases"] = len(jobs)
+			rep.Rule += "; E5: every RDY argument spelling (digit strings around max-rdy-count, 2^8..2^128, leading zeros, signs, non-digits, none) x max-rdy-count {1, 2, 2500, 2^31, 2^63-1} x state {subscribed, holding a message, closing}: accepted iff a digit string with value in [0, max-rdy-count], the range error is fatal, deliveries afterwards match the new count"
+		}
 		_ = states
 		_ = outcomes
 	}
